@@ -197,7 +197,7 @@ _add(
          "contracted with the weight with the forward output; lateral diagonal invariant after each of 4-14 random "
          "mutating operations (weight/delay assignment, updater application, clamp / normalise hooks, forward). "
          "distinct = geometry / shape-class abstractions.",
-    required=["forward_checks", "conv_geometries", "helper_checks", "lateral_diagonal_checks", "delayed_linear_cases", "initialiser_built_connections", "delayed_conv_cases", "bias_layout_checks", "conv_weights_assigned_in_other_memory_layouts", "linear_weights_assigned_in_other_memory_layouts", "initialiser_built_conv_connections", "lateral_same_object_assignments"],
+    required=["forward_checks", "conv_geometries", "helper_checks", "lateral_diagonal_checks", "delayed_linear_cases", "initialiser_built_connections", "delayed_conv_cases", "bias_layout_checks", "conv_weights_assigned_in_other_memory_layouts", "linear_weights_assigned_in_other_memory_layouts", "initialiser_built_conv_connections", "lateral_same_object_assignments", "conv_built_with_zero_delay"],
     floor={"quick": 150, "thorough": 3000},
     exhaustive={"thorough": ["conv2d: all square inputs 3..9, C,F in 1..3, kernels 1..3 x 1..3, stride 1..3, padding 0..2, dilation 1..2 with non-empty output"]},
     text="Held on every input and geometry explored: the real connections (float64) are driven with arbitrary real "
